@@ -1,13 +1,110 @@
 import LA.Drv.Util
+import LA.Model.Flags
 
-/-! line-protocol commands of the Rule family (filled in with its model). -/
+/-! line-protocol commands of the rule family (C06, C07, C13, C14). -/
 namespace LA.Drv.Rule
+open LA LA.Rule LA.Flags
+open LA.Auparse (Res)
 
 structure State where
   dummy : Unit := ()
 
 def init : State := {}
 
-def cmd (s : State) (_args : List String) : State × String := (s, "bad-op")
+def toNats (b : LA.Drv.Bytes) : LA.Bytes := b.map (·.toNat)
+def hexN (b : LA.Bytes) : String := LA.Drv.hex (b.map (fun n => UInt8.ofNat n))
+
+def unhexN (s : String) : Option LA.Bytes := (LA.Drv.unhex s).map toNats
+
+def hexList (l : List LA.Bytes) : String := ",".intercalate (l.map hexN)
+
+def unhexList (s : String) : Option (List LA.Bytes) :=
+  if s.isEmpty then some [] else (s.splitOn ",").mapM unhexN
+
+def renderFilter (f : FilterSpec) : String := s!"{f.typ}.{hexN f.lhs}.{hexN f.op}.{hexN f.rhs}"
+
+def renderRule : Rule → String
+  | .syscall t l a fs ss ks => s!"S;{t};{hexN l};{hexN a};{",".intercalate (fs.map renderFilter)};{hexList ss};{hexList ks}"
+  | .watch p perms ks => s!"W;{hexN p};{String.join (perms.map toString)};{hexList ks}"
+  | .deleteAll ks => s!"D;{hexList ks}"
+
+def parseFilterSpec (s : String) : Option FilterSpec :=
+  match s.splitOn "." with
+  | [t, l, o, r] =>
+    match t.toNat?, unhexN l, unhexN o, unhexN r with
+    | some t, some l, some o, some r => some ⟨t, l, o, r⟩
+    | _, _, _, _ => none
+  | _ => none
+
+def parseRule (s : String) : Option Rule :=
+  match s.splitOn ";" with
+  | ["S", t, l, a, fs, ss, ks] =>
+    match t.toNat?, unhexN l, unhexN a, (if fs.isEmpty then some [] else (fs.splitOn ",").mapM parseFilterSpec), unhexList ss, unhexList ks with
+    | some t, some l, some a, some fs, some ss, some ks => some (.syscall t l a fs ss ks)
+    | _, _, _, _, _, _ => none
+  | ["W", p, perms, ks] =>
+    match unhexN p, unhexList ks with
+    | some p, some ks => some (.watch p (perms.toList.map (fun c => c.toNat - 48)) ks)
+    | _, _ => none
+  | ["D", ks] => (unhexList ks).map Rule.deleteAll
+  | _ => none
+
+def parseLookups (s : String) : Option (List (LA.Bytes × Nat)) :=
+  if s == "-" then some [] else
+  (s.splitOn ",").mapM (fun e => match e.splitOn ":" with
+    | [n, v] => match unhexN n, v.toNat? with
+      | some n, some v => some (n, v)
+      | _, _ => none
+    | _ => none)
+
+def parseEnv (d u g : String) : Option Env :=
+  match parseLookups u, parseLookups g with
+  | some u, some g => some { isDir := d == "1", users := u, groups := g }
+  | _, _ => none
+
+def renderRes : Res LA.Bytes → String
+  | .ok b => hexN b
+  | .err _ => "err"
+  | .panic => "panic"
+
+/-- inputs outside the fidelity domain: Unicode case mapping applies to these values. -/
+def unicodeSensitive (r : Rule) : Bool :=
+  match r with
+  | .syscall _ _ _ fs _ _ =>
+    fs.any (fun f => (f.lhs == ofString "arch" || f.lhs == ofString "filetype" || f.lhs == ofString "msgtype") && !isAscii f.rhs)
+  | _ => false
+
+def cmd (s : State) (args : List String) : State × String :=
+  match args with
+  | "flags" :: "parse" :: toks =>
+    match toks.mapM unhexN with
+    | some toks =>
+      match parseArgs toks with
+      | some r => (s, renderRule r)
+      | none => (s, "err")
+    | none => (s, "bad-op")
+  | "pipe" :: d :: u :: g :: toks =>
+    match parseEnv d u g, toks.mapM unhexN with
+    | some env, some toks =>
+      match parseArgs toks with
+      | none => (s, "P:err")
+      | some r =>
+        if unicodeSensitive r then (s, "unmodelled:unicode-case") else
+        let b := build env r
+        let c := match b with
+          | .ok wf => renderRes (toCommandLine wf)
+          | _ => "-"
+        (s, s!"P:{renderRule r}|B:{renderRes b}|C:{c}")
+    | _, _ => (s, "bad-op")
+  | ["build", d, u, g, spec] =>
+    match parseEnv d u g, parseRule spec with
+    | some env, some r =>
+      if unicodeSensitive r then (s, "unmodelled:unicode-case") else (s, renderRes (build env r))
+    | _, _ => (s, "bad-op")
+  | ["cmdline", h] =>
+    match unhexN h with
+    | some wf => (s, renderRes (toCommandLine wf))
+    | none => (s, "bad-op")
+  | _ => (s, "bad-op")
 
 end LA.Drv.Rule
